@@ -30,6 +30,9 @@ PATTERNS = [
     ("destructor",             r"\bimpl(?:\s*<[^>]*>)?\s+Drop\s+for\b"),
     ("dynamic dispatch",       r"\bdyn\s+[A-Za-z_:]"),
     ("ffi",                    r"\bextern\s+\"|\blibc::"),
+    # fpdec's thread-local default rounding mode (DESIGN §3.2): the library touching it
+    ("ambient rounding mode",  r"\bRoundingMode\b|\bset_default\s*\("),
+    ("panic hooks / unwinding",r"\bcatch_unwind\b|\bset_hook\b|\bresume_unwind\b"),
 ]
 
 # forms that are known-harmless and occur on the pinned tree
